@@ -320,6 +320,8 @@ package rag
 //@   ensures id_column: column == e.config.ChunkIDColumnName ==> v == chunk.ID
 //@   ensures text_column: column != e.config.ChunkIDColumnName && column == e.config.TextColumnName ==> v == chunk.Text
 //@   ensures title_columns: column != e.config.ChunkIDColumnName && column != e.config.TextColumnName ==> (column == "document_title" ==> v == chunk.DocumentTitle) && (column == "section_title" ==> v == chunk.SectionTitle)
+// a "meta_<key>" column carries the metadata value stored under exactly <key> (the column name minus the PREFIX meta_)
+//@   atreturn#13 metadata_column_reads_its_own_key: key == strings.TrimPrefix(column, "meta_") && has(chunk.Metadata, key)
 
 // one field per column, in column order
 //@ func (*Exporter) chunkToCSVRow results (row)
